@@ -295,6 +295,10 @@ Definition get_header_by_hash (cb : hash -> bool) (s : store) (k : hash) : optio
       end
   end.
 
+(** GetHeaderByHeight = GetHeaderByHash (GetBlockHash height) *)
+Definition get_header_by_height (cb : hash -> bool) (s : store) (h : N) : option header :=
+  get_header_by_hash cb s (get_block_hash s h).
+
 Inductive byheight := BHNil | BHErr | BHOk (b : block).
 
 (** GetBlockByHeight: (nil, nil) when no hash is known for the height *)
